@@ -7,11 +7,13 @@ package cryptoutil
 import (
 	"bytes"
 	"fmt"
+	"math/big"
 	"math/rand"
 
 	"com.tuntun.rangers/node/src/common"
 	"com.tuntun.rangers/node/src/consensus/base"
 	"com.tuntun.rangers/node/src/consensus/groupsig"
+	bn "com.tuntun.rangers/node/src/consensus/groupsig/bn256"
 	"com.tuntun.rangers/node/src/consensus/logical/group_create"
 	"com.tuntun.rangers/node/src/consensus/model"
 	"com.tuntun.rangers/node/src/middleware/types"
@@ -41,6 +43,72 @@ type Group struct {
 	GPK        []groupsig.Pubkey // group public key as aggregated by each member
 	SeedPK     []groupsig.Pubkey // dealers' constant-coefficient public keys
 	K          int               // threshold the DKG nodes derived
+	Redeals    []Redeal          // dealers whose group context was rebuilt in the middle of the exchange
+}
+
+// Redeal records that a dealer's context was built a second time (restart, eviction from the context
+// cache) and what it dealt then.
+type Redeal struct {
+	Dealer     int  `json:"dealer"`
+	SamePieces bool `json:"samePieces"` // the second GenSharePieces output equals the first, piece by piece
+	SameSeedPK bool `json:"sameSeedPk"`
+	After      int  `json:"after"` // pieces of this dealer delivered from the first output
+}
+
+// Opts shapes the group RunDKGOpts builds.
+type Opts struct {
+	// IDStyle: "random" (32 random bytes; member 1 sometimes with leading zero bytes), "tagged"
+	// (2-byte tag that depends on the member index only, random middle, fixed 3-byte tail: different
+	// groups agree pairwise on the first 2 and last 3 bytes), "shifted" (small integer shifted left by
+	// Shift bytes: zero in the top 2 and bottom 3 bytes), "congruent" (member 2's id = member 1's id +
+	// the group order), "zeroModOrder" (member 1's id = the group order).
+	IDStyle string
+	Shift   int
+	// Redealers: this many dealers have their context rebuilt after part of their pieces was delivered;
+	// the remaining receivers get the pieces of the second context.
+	Redealers int
+}
+
+// idFor builds member i's id (0-based) in the given style.
+func idFor(rng *rand.Rand, style string, shift int, i int, prev []groupsig.ID) groupsig.ID {
+	b := make([]byte, 32)
+	switch style {
+	case "tagged":
+		rng.Read(b)
+		b[0], b[1] = 0x7a, byte(0x10+i)
+		b[29], b[30], b[31] = 0xc3, 0x5e, 0x01
+	case "shifted":
+		if shift < 3 {
+			shift = 3
+		}
+		if shift > 27 {
+			shift = 27
+		}
+		b[31-shift] = byte(i + 1)
+	case "congruent":
+		rng.Read(b)
+		b[0] &= 0x3f // below 2^254: id + order still fits in 256 bits
+		if i == 1 {
+			v := new(big.Int).Add(prev[0].GetBigInt(), bn.Order)
+			v.FillBytes(b)
+		}
+	case "zeroModOrder":
+		rng.Read(b)
+		if i == 0 {
+			bn.Order.FillBytes(b)
+		}
+	default:
+		rng.Read(b)
+		if i == 0 {
+			for z := 0; z < rng.Intn(3); z++ {
+				b[z] = 0
+			}
+		}
+	}
+	if b[31] == 0 && style != "shifted" && style != "congruent" && style != "zeroModOrder" {
+		b[31] = 1
+	}
+	return groupsig.DeserializeID(b)
 }
 
 // NewMiner makes a miner identity from seeded randomness. zeroLead forces the
@@ -69,13 +137,15 @@ func NewMiner(rng *rand.Rand, zeroLead int) *model.SelfMinerInfo {
 // them: every member deals share pieces to every member (itself included), the
 // pieces are delivered in a seeded random order, a few of them twice.
 func RunDKG(rng *rand.Rand, n int, tag string) (*Group, error) {
+	return RunDKGOpts(rng, n, tag, Opts{})
+}
+
+// RunDKGOpts is RunDKG with a choice of member ids and with dealers that deal a second time.
+func RunDKGOpts(rng *rand.Rand, n int, tag string, o Opts) (*Group, error) {
 	g := &Group{N: n}
 	for i := 0; i < n; i++ {
-		z := 0
-		if i == 0 {
-			z = rng.Intn(3) // sometimes an id with leading zero bytes
-		}
-		mi := NewMiner(rng, z)
+		mi := NewMiner(rng, 0)
+		mi.ID = idFor(rng, o.IDStyle, o.Shift, i, g.IDs)
 		g.Miners = append(g.Miners, mi)
 		g.IDs = append(g.IDs, mi.ID)
 	}
@@ -113,8 +183,35 @@ func RunDKG(rng *rand.Rand, n int, tag string) (*Group, error) {
 		}
 	}
 	rng.Shuffle(len(order), func(a, b int) { order[a], order[b] = order[b], order[a] })
+	// dealers that will deal a second time, after this many of their pieces went out
+	redealAfter := map[int]int{}
+	for d := 0; d < o.Redealers && d < n; d++ {
+		redealAfter[n-1-d] = 1 + rng.Intn(n-1)
+	}
+	sent := make([]int, n)
 	delivered := map[pair]bool{}
 	for _, p := range order {
+		if after, ok := redealAfter[p.from]; ok && sent[p.from] == after {
+			// the dealer's group context is built again for the same miner and the same group
+			// (restart in the middle of the exchange, eviction from the context cache) and deals again
+			second := group_create.VerifNewDKGNode(g.Miners[p.from], g.Info)
+			if second == nil {
+				return nil, fmt.Errorf("newGroupInitContext returned nil on re-deal")
+			}
+			again := second.GenSharePieces()
+			same := len(again) == len(pieces[p.from])
+			for k, v := range pieces[p.from] {
+				w, ok := again[k]
+				if !ok || !w.IsEqual(v) {
+					same = false
+				}
+			}
+			g.Redeals = append(g.Redeals, Redeal{Dealer: p.from + 1, SamePieces: same,
+				SameSeedPK: second.SeedPubKey().IsEqual(g.SeedPK[p.from]), After: after})
+			pieces[p.from] = again
+			delete(redealAfter, p.from)
+		}
+		sent[p.from]++
 		piece, ok := pieces[p.from][g.IDs[p.to].GetHexString()]
 		if !ok {
 			return nil, fmt.Errorf("dealer %d produced no piece for member %d", p.from+1, p.to+1)
